@@ -33,7 +33,7 @@ ExternalJ(c) ==
       [] OTHER -> "no"                                                    \* UnknownHostException
 
 ResultsJ(c) ==
-    LET allowPresent == Given(c.allow)                                    \* the variable is set (the executor leaves it unset for "")
+    LET allowPresent == Given(c.allow) \/ c.envform = "allow-empty"       \* the variable is set ("".split(",") = [""]: one unsupported item)
         blockPresent0 == Given(c.block)
         itemsA == SeqSet(DropTrailingEmpty(c.allow))
         itemsB == SeqSet(DropTrailingEmpty(c.block))
